@@ -9,7 +9,8 @@
 //	race g=<n> m=<n> mix=<kind,kind,...>    n goroutines x m calls, free running (Go scheduler decides)
 //
 // kinds: new (NewAddress) change (NewChangeAddress) cur (CurrentAddress) tx (CreateSimpleTx with change ->
-// txToOutputs) txdry (same, dryRun) psbt (FundPsbt with explicit inputs) import (ImportAccountDryRun).
+// txToOutputs) tximp (CreateSimpleTx spending from the IMPORTED account: its change address comes from account 0)
+// txdry (CreateSimpleTx with dryRun) psbt (FundPsbt with explicit inputs) import (ImportAccountDryRun).
 // Everything is on key scope BIP0084, account 0.
 package addrissue
 
@@ -25,6 +26,7 @@ import (
 	"sync"
 	"time"
 
+	"github.com/btcsuite/btcd/btcec/v2"
 	"github.com/btcsuite/btcd/btcutil"
 	"github.com/btcsuite/btcd/btcutil/hdkeychain"
 	"github.com/btcsuite/btcd/btcutil/psbt"
@@ -59,14 +61,14 @@ var (
 // site name (as in the extracted table) per caller kind
 var siteOf = map[string]string{
 	"new": "NewAddress", "change": "NewChangeAddress", "cur": "CurrentAddress", "tx": "txToOutputs",
-	"txdry": "txToOutputs", "psbt": "FundPsbt", "import": "ImportAccountDryRun",
+	"txdry": "txToOutputs", "psbt": "FundPsbt", "import": "ImportAccountDryRun", "tximp": "txToOutputs",
 }
 
 // branch per kind: 0 external, 1 internal, -1 none
-var branchOf = map[string]int{"new": 0, "cur": 0, "change": 1, "tx": 1, "txdry": 1, "psbt": 1, "import": -1}
+var branchOf = map[string]int{"new": 0, "cur": 0, "change": 1, "tx": 1, "txdry": 1, "psbt": 1, "import": -1, "tximp": 1}
 
 // strict issuers: a successful call must have obtained an address nobody else obtained
-var strict = map[string]bool{"new": true, "change": true, "tx": true, "psbt": true}
+var strict = map[string]bool{"new": true, "change": true, "tx": true, "psbt": true, "tximp": true}
 
 type callResult struct {
 	addr   string
@@ -89,6 +91,7 @@ type runner struct {
 	impKey *hdkeychain.ExtendedKey
 	impN   int
 	broken string
+	leak   bool
 	// database indices read at the end of the previous op (nothing runs between ops)
 	lastDisk [2]int
 	haveDisk bool
@@ -104,6 +107,11 @@ func (r *runner) base() (int, int, error) {
 func (engine) NewRunner() core.Runner { return &runner{known: map[string][2]int{}} }
 
 func (r *runner) Close() {
+	if r.leak {
+		// a caller is stuck inside the wallet (lock-order inversion in the code under test): stopping the wallet or
+		// closing the database would block for ever; abandon them (own temp dir, goroutines stay parked)
+		return
+	}
 	if r.w != nil {
 		r.w.Stop()
 		r.w.WaitForShutdown()
@@ -184,6 +192,49 @@ func (r *runner) setup() error {
 	}
 	r.utxo = wire.OutPoint{Hash: tx.TxHash(), Index: 0}
 	r.utxoTx = tx
+	// an imported private key (imported account of the same scope) with its own confirmed credit
+	priv, _ := btcec.PrivKeyFromBytes(bytes.Repeat([]byte{0x42}, 32))
+	wif, err := btcutil.NewWIF(priv, params, true)
+	if err != nil {
+		return err
+	}
+	sm, err := r.w.Manager.FetchScopedKeyManager(scope)
+	if err != nil {
+		return err
+	}
+	err = walletdb.Update(r.inner, func(dbtx walletdb.ReadWriteTx) error {
+		_, err := sm.ImportPrivateKey(dbtx.ReadWriteBucket([]byte("waddrmgr")), wif, &waddrmgr.BlockStamp{
+			Height: 0, Hash: *params.GenesisHash, Timestamp: time.Unix(1500000000, 0)})
+		return err
+	})
+	if err != nil {
+		return err
+	}
+	ia, err := btcutil.NewAddressWitnessPubKeyHash(btcutil.Hash160(priv.PubKey().SerializeCompressed()), params)
+	if err != nil {
+		return err
+	}
+	ipk, err := txscript.PayToAddrScript(ia)
+	if err != nil {
+		return err
+	}
+	tx2 := wire.NewMsgTx(2)
+	tx2.AddTxIn(&wire.TxIn{PreviousOutPoint: wire.OutPoint{Hash: chainhash.Hash{3}, Index: 0}, Sequence: wire.MaxTxInSequenceNum})
+	tx2.AddTxOut(wire.NewTxOut(50000000, ipk))
+	rec2, err := wtxmgr.NewTxRecordFromMsgTx(tx2, time.Unix(1600000100, 0))
+	if err != nil {
+		return err
+	}
+	err = walletdb.Update(r.inner, func(dbtx walletdb.ReadWriteTx) error {
+		ns := dbtx.ReadWriteBucket([]byte("wtxmgr"))
+		if err := r.w.TxStore.InsertTx(ns, rec2, blk); err != nil {
+			return err
+		}
+		return r.w.TxStore.AddCredit(ns, rec2, blk, 0, false)
+	})
+	if err != nil {
+		return err
+	}
 	// account key for ImportAccountDryRun
 	master, err := hdkeychain.NewMaster(bytes.Repeat([]byte{0x33}, 32), params)
 	if err != nil {
@@ -315,10 +366,14 @@ func (r *runner) call(kind string) func() callResult {
 		return func() callResult { a, err := r.w.NewChangeAddress(0, scope); return fin(raw{a, err}) }
 	case "cur":
 		return func() callResult { a, err := r.w.CurrentAddress(0, scope); return fin(raw{a, err}) }
-	case "tx", "txdry":
+	case "tx", "txdry", "tximp":
 		dry := kind == "txdry"
+		acct := uint32(0)
+		if kind == "tximp" {
+			acct = waddrmgr.ImportedAddrAccount
+		}
 		return func() callResult {
-			atx, err := r.w.CreateSimpleTx(&scope, 0, []*wire.TxOut{r.payOut()}, 1, 2000,
+			atx, err := r.w.CreateSimpleTx(&scope, acct, []*wire.TxOut{r.payOut()}, 1, 2000,
 				wallet.CoinSelectionLargest, dry)
 			if err != nil {
 				return fin(raw{nil, err})
@@ -509,6 +564,7 @@ func (r *runner) Exec(op string) (string, string) {
 		events, res, allDone, err := r.ctl.runSchedule(calls, sched)
 		if err != nil {
 			r.broken = "controller: " + err.Error()
+			r.leak = true
 			return "err controller " + err.Error(), ""
 		}
 		var rets []string
@@ -568,7 +624,32 @@ func (r *runner) Exec(op string) (string, string) {
 			}(j)
 		}
 		close(start)
-		wg.Wait()
+		finished := make(chan struct{})
+		go func() { wg.Wait(); close(finished) }()
+		// a wallet whose code under test has a lock-order inversion really deadlocks here; detect it by quiescence
+		// (every goroutine waiting, the race not finished) instead of hanging
+		buf := make([]byte, 1<<20)
+		for quiet := 0; ; {
+			stuck := false
+			select {
+			case <-finished:
+			case <-time.After(50 * time.Millisecond):
+				if q, _ := othersQuiescent(buf); q {
+					quiet++
+				} else {
+					quiet = 0
+				}
+				if quiet < 3 {
+					continue
+				}
+				stuck = true
+			}
+			if stuck {
+				r.broken, r.leak = "race deadlocked", true
+				return "err race-deadlock", ""
+			}
+			break
+		}
 		nerr := 0
 		for i := range res {
 			r.finish(&res[i])
@@ -598,7 +679,7 @@ func (r *runner) state(prefix string) (string, string) {
 
 // ---------------------------------------------------------------- generator
 
-var allKinds = []string{"new", "change", "cur", "tx", "psbt", "import", "txdry"}
+var allKinds = []string{"new", "change", "cur", "tx", "psbt", "import", "txdry", "tximp"}
 
 // interleavings of a zeros and b ones
 func interleavings(a, b int) [][]int {
@@ -637,7 +718,7 @@ func drain(n, rounds int) []int {
 	return s
 }
 
-func isTx(k string) bool { return k == "tx" || k == "txdry" }
+func isTx(k string) bool { return k == "tx" || k == "txdry" || k == "tximp" }
 
 func (engine) Generate(rng *rand.Rand, tier string) []core.Case {
 	var cases []core.Case
@@ -671,7 +752,7 @@ func (engine) Generate(rng *rand.Rand, tier string) []core.Case {
 	// (1b) three callers, the "late callback" template for every issuing site X in the first position:
 	// X commits and its callback stays pending while two other calls on the same branch run completely, then X's
 	// callback runs (without the mutex at X this moves the in-memory index backwards).  Plus neighbours of it.
-	for _, x := range []string{"new", "cur", "change", "tx", "psbt"} {
+	for _, x := range []string{"new", "cur", "change", "tx", "psbt", "tximp"} {
 		partner := "new"
 		if branchOf[x] == 1 {
 			partner = "change"
@@ -731,7 +812,7 @@ func (engine) Generate(rng *rand.Rand, tier string) []core.Case {
 	if thorough {
 		nr = 60
 	}
-	mixes := [][]string{{"new"}, {"change"}, {"new", "change"}, {"new", "change", "cur", "tx"}, {"change", "tx", "psbt"},
+	mixes := [][]string{{"new"}, {"change"}, {"new", "change"}, {"new", "change", "cur", "tx"}, {"change", "tximp", "psbt"},
 		{"new", "cur", "import", "txdry", "change"}}
 	for i := 0; i < nr; i++ {
 		c := core.Case{Ops: []string{"reset", "setup"}, Tags: []string{"race"}}
